@@ -222,6 +222,21 @@ def main(chk, replay=None):
         if lab is not None:
             scs = '+'.join(sorted(set(sc['vals'])))
             chk.violation('C19/%s/%s/%s' % (state, scs, lab), {'scenario': st['scn']}, {'k': exp['k']}, obs)
+    if not chk.quick:
+        # unbounded companions of the grid theorems, discharged by the TLA+ proof system (extra; the claim stays model checking)
+        import shutil
+        import subprocess
+        d = tlc.scratch('tlaps_')
+        shutil.copy(os.path.join(tlc.SPEC_DIR, 'proofs', 'HistBinsProofs.tla'), d)
+        try:
+            p = subprocess.run(['tlapm', 'HistBinsProofs.tla'], cwd=d, stdout=subprocess.PIPE, stderr=subprocess.STDOUT,
+                               universal_newlines=True, timeout=600)
+            import re as _re
+            m = _re.search(r'All (\d+) obligations? proved', p.stdout)
+            chk.extra['tlaps'] = {'module': 'spec/proofs/HistBinsProofs.tla', 'obligations_proved': int(m.group(1)) if m else 0,
+                                  'all_proved': bool(m)}
+        except Exception as e:  # noqa
+            chk.extra['tlaps'] = {'module': 'spec/proofs/HistBinsProofs.tla', 'error': repr(e)[:200]}
     chk.exhaustive = True
 
 
